@@ -511,13 +511,19 @@ int64_t cmi_pool_acquire_inner(struct cmb_resourcepool *rpp,
                             "Interrupted by signal %" PRId64 ", returning unchanged",
                             sig);
             if (initially_held > 0u) {
-                /* Put back the difference. It had some, there should be a record */
-                const uint64_t surplus = reset_holder(hhp, caller, initially_held);
-                rpp->in_use -= surplus;
-                cmb_assert_debug(rpp->in_use <= rpp->capacity);
-                record_sample(rpp);
+                /*
+                 * Put back the difference, unless everything was taken from us
+                 * by a preempting process in this same instant, in which case
+                 * there is no record and nothing left to put back.
+                 */
+                if (cmb_resourcepool_held_by_process(rpp, caller) > initially_held) {
+                    const uint64_t surplus = reset_holder(hhp, caller, initially_held);
+                    rpp->in_use -= surplus;
+                    cmb_assert_debug(rpp->in_use <= rpp->capacity);
+                    record_sample(rpp);
 
-                cmb_resourceguard_signal(&(rpp->guard));
+                    cmb_resourceguard_signal(&(rpp->guard));
+                }
             }
             else {
                 /* Had nothing, put back all. */
